@@ -856,3 +856,34 @@ pub fn finish(agg: &Agg, wall_s: f64, rule: &str, assumptions: Vec<String>) -> i
     }
     0
 }
+
+/// Determinism self-test support: per-run digest of the whole step trace,
+/// computed with the configured number of worker threads.
+pub fn dump_traces<W: World>(prop: Prop, seed: u64, runs: u64, known: &Known) -> Vec<(u64, u64, u64)> {
+    let threads = std::env::var("VERIF_THREADS").ok().and_then(|s| s.parse::<usize>().ok()).unwrap_or(16).max(1);
+    let next = AtomicUsize::new(0);
+    let out: Mutex<Vec<(u64, u64, u64)>> = Mutex::new(vec![]);
+    std::thread::scope(|sc| {
+        for _ in 0..threads {
+            sc.spawn(|| loop {
+                let idx = next.fetch_add(1, Ordering::Relaxed) as u64;
+                if idx >= runs {
+                    break;
+                }
+                let run_seed = run_seed_for(seed, prop, W::NAME, idx);
+                let mut rng = Rng::new(run_seed);
+                let (cfg, ops) = W::generate(&mut rng, gen_params(prop, run_seed, false));
+                let o = exec_once::<W>(&cfg, &ops, prop, known, false);
+                let mut h = Fnv::new();
+                for t in &o.trace {
+                    h.write(&t.to_le_bytes());
+                }
+                h.write(format!("{:?}|{:?}|{:?}", o.violation, o.truncated_by, o.harness_error).as_bytes());
+                out.lock().unwrap().push((idx, run_seed, h.done()));
+            });
+        }
+    });
+    let mut v = out.into_inner().unwrap();
+    v.sort();
+    v
+}
